@@ -19,6 +19,15 @@ CLAIMED = {
  'C18': dict(level='exploration', design='5.18',
    text="Seeded search over interleavings of Future::poll (driven by a minimal executor on the simulated Mutex/Condvar, with eager re-polls and injected spurious wake-ups) with a source emitting on another thread. Oracle: Ready never before the source's terminal call started, never Pending for a poll started after it returned, exact items/error payload, and no deadlock (= no lost wake-up).",
    technique='deterministic simulation: seeded scheduling incl. scheduling points at lock release, spurious wake-ups; deadlock = lost wake-up'),
+ 'C11': dict(level='exploration', design='5.11',
+   text="Seeded search over interleavings of 2..3 emitting threads (every input of merge / flat_map / zip / concat / amb on its own simulated thread, with and without take(n) downstream) at lock-operation granularity. Oracle: conservation (multiset, per-input order, zip pairing, concat non-interleaving, single amb winner), take never exceeds n, exactly one complete after the last item, never two terminals.",
+   technique='deterministic simulation: seeded scheduling of emitting threads, conservation oracle over the recorded history'),
+ 'C12': dict(level='exploration', design='5.12',
+   text="Seeded search over interleavings of 1..2 producer threads, up to two concurrently subscribing threads and an unsubscribing thread on Subject / BehaviorSubject / ReplaySubject. Oracle with conservative stamps: steady observers get everything once in producer order; concurrent subscribers a gap-free suffix (ReplaySubject: everything; BehaviorSubject: a value then every later one); concurrent unsubscribers a gap-free prefix and nothing pushed after unsubscribe returned. Three genuine races of the pinned tree are recorded as open findings with an explains-predicate (push overlaps subscribe).",
+   technique='deterministic simulation: seeded scheduling of producer/subscriber/unsubscriber threads, per-producer suffix/prefix oracle'),
+ 'C19': dict(level='exploration', design='5.19',
+   text="Seeded search over interleavings of 2..3 threads of which at least one signals a terminal while another emits: inputs of merge / flat_map / zip / amb / concat, source vs trigger of take_until / skip_until / sample, and next || complete/error || error on the four subject types, observers direct and behind an operator, with scheduling points inside the subscriber's callbacks. Oracle: at most one terminal; no delivery whose originating emission started after the terminal callback returned.",
+   technique='deterministic simulation: seeded scheduling of racing emitters, contract oracle with logical-clock stamps'),
  # -- more claimed
 }
 NA = {
